@@ -259,6 +259,9 @@ func getLSAsv2(num uint32, data []byte) ([]LSA, error) {
 	var i uint32 = 0
 	var offset uint32 = 0
 	for ; i < num; i++ {
+		if uint64(offset)+20 > uint64(len(data)) {
+			return nil, fmt.Errorf("Link State header extends beyond data")
+		}
 		lstype := uint16(data[offset+3])
 		lsalength := binary.BigEndian.Uint16(data[offset+18 : offset+20])
 		content, err := extractLSAInformation(lstype, lsalength, data[offset:])
@@ -455,6 +458,9 @@ func getLSAs(num uint32, data []byte) ([]LSA, error) {
 	var offset uint32 = 0
 	for ; i < num; i++ {
 		var content interface{}
+		if uint64(offset)+20 > uint64(len(data)) {
+			return nil, fmt.Errorf("Link State header extends beyond data")
+		}
 		lstype := binary.BigEndian.Uint16(data[offset+2 : offset+4])
 		lsalength := binary.BigEndian.Uint16(data[offset+18 : offset+20])
 
@@ -480,6 +486,32 @@ func getLSAs(num uint32, data []byte) ([]LSA, error) {
 	return lsas, nil
 }
 
+// ospfCheckLength checks that the declared packet length lies inside the data
+// and that the fixed part of the message body (which follows a common header of
+// hdr octets) is present.
+func ospfCheckLength(t OSPFType, packetLength uint16, dataLen int, hdr int) error {
+	if int(packetLength) > dataLen {
+		return fmt.Errorf("OSPF packet length %d exceeds the %d bytes of data", packetLength, dataLen)
+	}
+	body := 0
+	switch t {
+	case OSPFHello:
+		body = 20
+	case OSPFDatabaseDescription:
+		if hdr == 24 {
+			body = 8
+		} else {
+			body = 12
+		}
+	case OSPFLinkStateUpdate:
+		body = 4
+	}
+	if dataLen < hdr+body {
+		return fmt.Errorf("OSPF packet of %d bytes too small for message type %d", dataLen, t)
+	}
+	return nil
+}
+
 // DecodeFromBytes decodes the given bytes into the OSPF layer.
 func (ospf *OSPFv2) DecodeFromBytes(data []byte, df gopacket.DecodeFeedback) error {
 	if len(data) < 24 {
@@ -494,6 +526,10 @@ func (ospf *OSPFv2) DecodeFromBytes(data []byte, df gopacket.DecodeFeedback) err
 	ospf.Checksum = binary.BigEndian.Uint16(data[12:14])
 	ospf.AuType = binary.BigEndian.Uint16(data[14:16])
 	ospf.Authentication = binary.BigEndian.Uint64(data[16:24])
+
+	if err := ospfCheckLength(ospf.Type, ospf.PacketLength, len(data), 24); err != nil {
+		return err
+	}
 
 	switch ospf.Type {
 	case OSPFHello:
@@ -592,6 +628,10 @@ func (ospf *OSPFv3) DecodeFromBytes(data []byte, df gopacket.DecodeFeedback) err
 	ospf.Checksum = binary.BigEndian.Uint16(data[12:14])
 	ospf.Instance = uint8(data[14])
 	ospf.Reserved = uint8(data[15])
+
+	if err := ospfCheckLength(ospf.Type, ospf.PacketLength, len(data), 16); err != nil {
+		return err
+	}
 
 	switch ospf.Type {
 	case OSPFHello:
